@@ -2937,6 +2937,12 @@ class WBEMConnection:  # pylint: disable=too-many-instance-attributes
                                 "list, got {0} object",
                                 instance.__class__.__name__),
                         conn_id=self.conn_id)
+                if instance.path is None:
+                    # e.g. VALUE.OBJECT instead of VALUE.OBJECTWITHPATH
+                    raise CIMXMLParseError(
+                        "Expecting CIMInstance object with path in result "
+                        "list, got CIMInstance object without path",
+                        conn_id=self.conn_id)
         else:
             # class-level invocation
             for obj in objects:
